@@ -49,6 +49,7 @@ def main():
     ap.add_argument("--also", default="")
     ap.add_argument("--all", action="store_true")
     ap.add_argument("--needs", default="")
+    ap.add_argument("--offset", type=int, default=0, help="stored as <PID>-<i+offset> (second round of changes)")
     a = ap.parse_args()
     readme = open(os.path.join(a.out, "README.md")).read() if os.path.exists(os.path.join(a.out, "README.md")) else ""
     for i in (1, 2, 3):
@@ -95,7 +96,7 @@ def main():
                     res[pid + ":thorough"] = r2
                 res[pid] = r
             caught = [k for k, v in res.items() if v["rc"] == 1]
-            dest = os.path.join(HERE, "seeded", f"{a.pid}-{i}")
+            dest = os.path.join(HERE, "seeded", f"{a.pid}-{i + a.offset}")
             os.makedirs(dest, exist_ok=True)
             shutil.copy(pf, os.path.join(dest, "patch.diff"))
             if os.path.exists(df):
@@ -126,7 +127,7 @@ def main():
                 "kept": bool(tests_ok and demo_ok),
             }
             json.dump(meta, open(os.path.join(dest, "meta.json"), "w"), indent=1)
-            print(f"{a.pid}-{i}: tests_ok={tests_ok} demo_ok={demo_ok} caught_by={caught} "
+            print(f"{a.pid}-{i + a.offset}: tests_ok={tests_ok} demo_ok={demo_ok} caught_by={caught} "
                   f"{ {k: v['mechanisms'][:3] for k, v in res.items() if v['rc'] == 1} }", flush=True)
         finally:
             shutil.rmtree(d, ignore_errors=True)
